@@ -124,10 +124,15 @@ func (w *Writer) recoverTail() error {
 		offset     int64
 		crcStart   int64
 		offsetsLen int
+		indexStart uint64
 	}
 	var prevCommit, finalCommit *commitInfo
 
 	offsets := make([]uint32, 0, 32*1024)
+
+	// indexStart of an index frame seen since the last commit frame. It only
+	// counts if the commit frame that follows it turns out to be valid.
+	pendingIndexStart := uint64(0)
 
 	readInfo, err := readThroughSegment(w.wf, func(_ types.SegmentInfo, fh frameHeader, offset int64) (bool, error) {
 		switch fh.typ {
@@ -139,7 +144,7 @@ func (w *Writer) recoverTail() error {
 			// So this segment was sealed! (or attempted) keep track of this
 			// indexStart in case it turns out the Seal actually committed completely.
 			// We store the start of the actual array not the frame header.
-			w.writer.indexStart = uint64(offset) + frameHeaderLen
+			pendingIndexStart = uint64(offset) + frameHeaderLen
 
 		case FrameCommit:
 			// The payload is not the length field in this case!
@@ -149,7 +154,9 @@ func (w *Writer) recoverTail() error {
 				offset:     offset,
 				crcStart:   0,            // First commit includes the file header
 				offsetsLen: len(offsets), // Track how many entries were found up to this commit point.
+				indexStart: pendingIndexStart,
 			}
+			pendingIndexStart = 0
 			if prevCommit != nil {
 				finalCommit.crcStart = prevCommit.offset + frameHeaderLen
 			}
@@ -193,6 +200,7 @@ func (w *Writer) recoverTail() error {
 		// after the last commit.
 		offsets = offsets[:finalCommit.offsetsLen]
 		w.offsets.Store(offsets)
+		w.writer.indexStart = finalCommit.indexStart
 
 		// Since at least one commit was found, the header better be valid!
 		return validateFileHeader(*readInfo, w.info)
@@ -216,6 +224,7 @@ func (w *Writer) recoverTail() error {
 		// All is good. We already setup the state we need for writer other than
 		// offsets.
 		w.offsets.Store(offsets)
+		w.writer.indexStart = finalCommit.indexStart
 
 		// Since at least one commit was found, the header better be valid!
 		return validateFileHeader(*readInfo, w.info)
@@ -231,6 +240,7 @@ func (w *Writer) recoverTail() error {
 	w.writer.writeOffset = uint32(prevCommit.offset + frameHeaderLen)
 	offsets = offsets[:prevCommit.offsetsLen]
 	w.offsets.Store(offsets)
+	w.writer.indexStart = prevCommit.indexStart
 
 	// Since at least one commit was found, the header better be valid!
 	return validateFileHeader(*readInfo, w.info)
